@@ -50,7 +50,7 @@ let () =
      match hand_iter d (n_of_int k) mask with
      | None -> if impl <> "P" then fails := [Mismatch "P"]
      | Some it ->
-       let hint = match combinations it with Some c -> string_of_n c | None -> "-1" in
+       let hint = match combinations d it with Some c -> string_of_n c | None -> "-1" in
        let dg = new_digest () in
        if drain d it dg then (let m = show dg hint in if m <> impl then fails := [Mismatch m])
        else if impl <> "P" then fails := [Mismatch "P (during iteration)"]);
@@ -68,8 +68,9 @@ let () =
       if not same then fails := Specfail ("c06_hands_enum", Printf.sprintf "expected %d hands (xor %s), increasing, each once" dg.count (u64s dg.xor)) :: !fails;
       (* the size the iterator announces is the binomial coefficient (judged where at least k cards are free: with
          fewer free cards nothing is yielded, which is what the property asks; the announcement there is 1 or an
-         arithmetic abort -- noted in DESIGN.md, not claimed as a violation of the statement about yielded hands) *)
-      if free >= k && k >= 1 && o.(6) <> string_of_n binom then
+         arithmetic abort -- noted in DESIGN.md, not claimed as a violation of the statement about yielded hands; and
+         on the standard deck only: the short-deck build announces C(52 - |mask|, k), the literal 52 of the source) *)
+      if d = Standard && free >= k && k >= 1 && o.(6) <> string_of_n binom then
         fails := Specfail ("c06_announced_size_is_binomial", Printf.sprintf "size_hint says %s, C(%d,%d) = %s" o.(6) free k (string_of_n binom)) :: !fails;
       if string_of_n binom <> string_of_int dg.count then fails := Mismatch "spec count <> binomial (driver bug)" :: !fails
     end;
